@@ -233,3 +233,16 @@ Lemma tri_trace_ok : trace_ok gen_tri_rfacets [true; true; true] gen_tri_templat
 Proof. vm_compute. reflexivity. Qed.
 Lemma quad_trace_ok : trace_ok gen_quad_rfacets [true; true; true; true] gen_quad_templates = true.
 Proof. vm_compute. reflexivity. Qed.
+
+(* ------------------------------------------------------------------ refined(k) for tetrahedra *)
+Definition tet_step (p : list point) (tb : tables) : list point * list (list nat) :=
+  fst (uniform_tet tet_spec gen_tet_diags gen_tet_comps gen_tet_classes p tb).
+
+Lemma tet_step_cells p tb : length (snd (tet_step p tb)) = 8 * length (tb_t tb).
+Proof.
+  pose proof (uniform_tet_cls_lt3 p tb) as Hc. unfold tet_step, uniform_tet in *. cbn [fst snd] in *.
+  rewrite refine_t_tet_length; [now rewrite mk_ctxs_length | reflexivity | now rewrite map_length | exact Hc].
+Qed.
+
+Lemma tet_step_prefix p tb : firstn (length p) (fst (tet_step p tb)) = p.
+Proof. unfold tet_step, uniform_tet. cbn [fst]. apply refine_p_prefix. Qed.
